@@ -37,6 +37,20 @@ theorem case_tables_round_trip :
     caseRoundTripCheck upperRanges lowerRanges upperLowerUpperExceptions = true ∧ caseExceptionsExact = true := by
   constructor <;> decide +kernel
 
+/-! The checkers do reject: tables that are not sorted, that map into the surrogates, whose images are moved again (`a → b`,
+`b → c`), or whose exception list misses a rune (`K → k → K`, the Kelvin sign U+212A). A toolchain whose tables had one of
+these defects would fail the obligations above, not pass them vacuously. -/
+example : caseTableWf [⟨0x62, 0x63, false, 0x42⟩, ⟨0x61, 0x61, false, 0x41⟩] = false := by decide +kernel
+example : caseTableWf [⟨0x61, 0x63, false, 0xD7FF⟩] = false := by decide +kernel
+example : caseTableWf [⟨0x61, 0x64, true, 0x41⟩] = false := by decide +kernel
+example : caseIdemCheck [⟨0x61, 0x61, false, 0x62⟩, ⟨0x62, 0x62, false, 0x63⟩] = false := by decide +kernel
+example : caseIdemCheck [⟨0x101, 0x12F, true, 0x100⟩, ⟨0x131, 0x131, false, 0x49⟩] = true := by decide +kernel
+example : caseIdemCheck [⟨0x101, 0x12F, true, 0x103⟩] = false := by decide +kernel
+example : caseRoundTripCheck [⟨0x6B, 0x6B, false, 0x4B⟩] [⟨0x4B, 0x4B, false, 0x6B⟩, ⟨0x212A, 0x212A, false, 0x6B⟩] [] = false := by
+  decide +kernel
+example : caseRoundTripCheck [⟨0x6B, 0x6B, false, 0x4B⟩] [⟨0x4B, 0x4B, false, 0x6B⟩, ⟨0x212A, 0x212A, false, 0x6B⟩] [0x212A] = true := by
+  decide +kernel
+
 theorem upperRanges_sorted : caseSorted upperRanges = true := by
   have := case_tables_wellformed.1
   simp only [caseTableWf, Bool.and_eq_true] at this
